@@ -30,6 +30,8 @@ class Tape:
     def __init__(self):
         self.calls = []
         self.kept = []
+        self.eigh_calls = []     # (Gram matrix sent to the backend's eigh, eigenvalues, eigenvectors)
+        self.sym_calls = []      # (matrix, n_eigenvecs, U, S, V) of every tensorly.tenalg.svd.symeig_svd call
 
     def __enter__(self):
         from tensorly.backend.numpy_backend import NumpyBackend
@@ -53,11 +55,31 @@ class Tape:
             self.kept.append(n_eigenvecs)
             return old_trunc(matrix, n_eigenvecs=n_eigenvecs, **kw)
         tsvd.truncated_svd = trunc_wrapper
+        # svd="symeig_svd": the backend's eigh (LAPACK syevd) is the oracle of Model/SvdDecompSymeig.v; symeig_svd's own
+        # arguments / results are recorded only to decide which runs are well-conditioned enough for the factor comparison
+        self._old_eigh = NumpyBackend.__dict__["eigh"]
+        inner_eigh = np.linalg.eigh
+
+        def eigh_wrapper(a, *args, **kw):
+            lam, W = inner_eigh(a, *args, **kw)
+            self.eigh_calls.append((np.array(a, copy=True), np.array(lam, copy=True), np.array(W, copy=True)))
+            return lam, W
+        NumpyBackend.register_method("eigh", eigh_wrapper)
+        self._old_sym = tsvd.symeig_svd
+        old_sym = self._old_sym
+
+        def sym_wrapper(matrix, n_eigenvecs=None, **kw):
+            U, S, V = old_sym(matrix, n_eigenvecs=n_eigenvecs, **kw)
+            self.sym_calls.append((np.array(matrix, copy=True), n_eigenvecs, np.array(U, copy=True), np.array(S, copy=True), np.array(V, copy=True)))
+            return U, S, V
+        tsvd.symeig_svd = sym_wrapper
         return self
 
     def __exit__(self, *a):
         setattr(self._cls, "svd", self._old)
+        setattr(self._cls, "eigh", self._old_eigh)
         self._tsvd.truncated_svd = self._old_trunc
+        self._tsvd.symeig_svd = self._old_sym
         return False
 
 
@@ -372,6 +394,8 @@ def pred_tr(X, rank, mode, factors, sufficient, rel=None):
 
 # ----------------------------------------------------------------------------- running the implementation
 LAST_KEPT = []    # truncation ranks of the SVD calls of the last run_impl (same order as the tape)
+LAST_EIGH = []    # eigh calls of the last run_impl
+LAST_SYM = []     # symeig_svd calls of the last run_impl
 
 
 def sign_ambiguous(calls, kept):
@@ -425,6 +449,8 @@ def run_impl(kind, X, rank, extra, via_class=False):
         else:
             raise KeyError(kind)
     LAST_KEPT[:] = list(tp.kept)
+    LAST_EIGH[:] = list(tp.eigh_calls)
+    LAST_SYM[:] = list(tp.sym_calls)
     return st, v, tp.calls
 
 
@@ -843,6 +869,41 @@ def gen_corr_cases(tier, rng, nrng):
             yield kind, X, rank, {"n_iter_max": it, "tol": 0, "init": "svd"}, {"cls": cls, "valid": True}
 
 
+def gen_sym_corr_cases(tier, rng, nrng):
+    """small cases for the model <-> implementation comparison of svd="symeig_svd" (Model/SvdDecompSymeig.v inside the generic model)"""
+    shapes = [s_ for s_ in small_shapes(tier) if int(np.prod(s_)) <= 24]
+    N = 44 if tier == "quick" else 320
+    cl = ["generic", "integer", "generic", "sparseint", "lowtt", "generic", "intlow", "deficient", "lowml", "negperm"]
+    for i in range(N):
+        shape = shapes[rng.randrange(len(shapes))]
+        order = len(shape)
+        cls = cl[i % len(cl)]
+        X = make_tensor(cls, shape, nrng, rng)
+        if X.dtype.kind == "f":
+            X = np.round(X * 16) / 16
+            if not X.any():
+                X.flat[0] = 1.0
+        kind = ["tt", "tucker", "tr", "tt", "ttm", "tucker"][(i // 2) % 6]
+        if kind == "ttm" and order % 2:
+            kind = "tt"
+        extra = {"svd": "symeig_svd"}
+        if kind in ("tt", "ttm"):
+            nn = order if kind == "tt" else order // 2
+            if rng.random() < 0.1:
+                rank = rng.choice([[1] + [2] * nn + [1], [2] + [1] * (nn - 1) + [1], 2, 1])
+            else:
+                rank = [1] + [rng.choice([1, 1, 2, 2, 3]) for _ in range(nn - 1)] + [1]
+            valid = isinstance(rank, int) or (len(rank) == nn + 1 and rank[0] == 1 and rank[-1] == 1) or (kind == "ttm" and nn == 1)
+            yield kind, X, rank, extra, {"cls": cls, "valid": valid}
+        elif kind == "tr":
+            mode = rng.randrange(order)
+            rank = tr_rank_for(rng, list(shape), mode, False)
+            yield kind, X, rank, dict(extra, mode=mode), {"cls": cls, "valid": True, "sufficient": False}
+        else:
+            rank = [rng.choice([1, 1, 2, 2, 3]) for _ in range(order)]
+            yield kind, X, rank, dict(extra, n_iter_max=rng.choice([0, 1, 1, 2]), tol=0, init="svd"), {"cls": cls, "valid": True}
+
+
 # ----------------------------------------------------------------------------- AST tie of the integer decision logic
 # The rank-clipping / rotation / reordering / validation expressions of the CURRENT source are translated from the Python ast
 # to Gallina on every run and PROVED equal (coqc) to what the model functions compute (realised_body <- chain_loop by
@@ -897,8 +958,9 @@ def _ga(node, env):
             return f"(seq 0 {args[0]})"
         if f == "range" and len(args) == 2:
             return f"(seq {args[0]} ({args[1]} - {args[0]}))"
-    if isinstance(node, ast.Compare) and len(node.ops) == 1 and isinstance(node.ops[0], ast.Gt):
-        return f"({_ga(node.comparators[0], env)} <? {_ga(node.left, env)})"
+    if isinstance(node, ast.Compare) and len(node.ops) == 1 and isinstance(node.ops[0], (ast.Gt, ast.Lt, ast.GtE, ast.LtE)):
+        a, b = _ga(node.left, env), _ga(node.comparators[0], env)
+        return {ast.Gt: f"({b} <? {a})", ast.Lt: f"({a} <? {b})", ast.GtE: f"({b} <=? {a})", ast.LtE: f"({a} <=? {b})"}[type(node.ops[0])]
     if isinstance(node, ast.Subscript):
         l = _ga(node.value, env)
         sl = node.slice
@@ -919,6 +981,132 @@ def _ga(node, env):
         elif not isinstance(sl, ast.Slice):
             return f"(nth {_ga(sl, env)} {l} 0)"
     raise Untranslatable(src)
+
+
+def _is_tl(node, name):
+    import ast
+    return (isinstance(node, ast.Call) and isinstance(node.func, ast.Attribute) and node.func.attr == name
+            and isinstance(node.func.value, ast.Name) and node.func.value.id == "tl")
+
+
+def _gm(node, env):
+    """matrix expression of symeig_svd (ast) -> Gallina term over Model/SvdDecompSymeig.v (Op : fops F in scope)"""
+    import ast
+    if isinstance(node, ast.Name) and node.id in env:
+        return env[node.id]
+    if _is_tl(node, "dot") and len(node.args) == 2:
+        return f"(matmul Op {_gm(node.args[0], env)} {_gm(node.args[1], env)})"
+    if _is_tl(node, "transpose") and len(node.args) == 1 and not node.keywords:
+        return f"(mtrans Op {_gm(node.args[0], env)})"
+    if isinstance(node, ast.BinOp) and isinstance(node.op, ast.Div) and _is_tl(node.right, "reshape") \
+            and ast.unparse(node.right.args[1]).replace(" ", "") == "(1,-1)":
+        return f"(div_cols Op {_gm(node.left, env)} {_gm(node.right.args[0], env)})"
+    if _is_tl(node, "flip"):
+        ax = [k.value.value for k in node.keywords if k.arg == "axis" and isinstance(k.value, ast.Constant)]
+        inner = node.args[0]
+        if not node.keywords and len(node.args) == 1:
+            return f"(rev {_gm(inner, env)})"          # 1-D flip of the singular values
+        if ax == [1]:
+            return f"(flip_cols Op {_gm(inner, env)})"
+        if ax == [0]:
+            return f"(flip_rows Op {_gm(inner, env)})"
+    raise Untranslatable(ast.unparse(node))
+
+
+def symeig_ast_goals():
+    """goals regenerated from the CURRENT source of tensorly/tenalg/svd.py symeig_svd.
+    verdict goals (semantic, proved with case analysis + lia): which Gram matrix goes to eigh in which case, the clip level,
+    the three slice bounds of the return expression.  non-verdict goal (syntactic): the whole body is Model.symeig_raw."""
+    import ast, os
+    tree = ast.parse(open(os.path.join(C.REPO, "tensorly/tenalg/svd.py")).read())
+    fn = [n for n in ast.walk(tree) if isinstance(n, ast.FunctionDef) and n.name == "symeig_svd"]
+    if not fn:
+        raise Untranslatable("symeig_svd not found")
+    fn = fn[0]
+    iff = [n for n in fn.body if isinstance(n, ast.If) and isinstance(n.test, ast.Compare) and "dim_1" in ast.unparse(n.test)]
+    if len(iff) != 1 or not iff[0].orelse:
+        raise Untranslatable("the dim_1 / dim_2 branch of symeig_svd")
+    iff = iff[0]
+    cond = _ga(iff.test, {"dim_1": "(nrows M)", "dim_2": "(ncols M)"})
+
+    def branch(stmts):
+        """(Gram expression, clip a_min expression, {U, S, V} environment after the branch) of one branch"""
+        eig = [st for st in stmts if isinstance(st, ast.Assign) and _is_tl(st.value, "eigh")]
+        if len(eig) != 1 or not isinstance(eig[0].targets[0], ast.Tuple) or len(eig[0].targets[0].elts) != 2:
+            raise Untranslatable("eigh statement")
+        sname, wname = [e.id for e in eig[0].targets[0].elts]
+        gram = _gm(eig[0].value.args[0], {"matrix": "M"})
+        env = {"matrix": "M", wname: "W", sname: "s"}
+        clip_arg = None
+        for st in stmts:
+            if st is eig[0] or not isinstance(st, ast.Assign) or len(st.targets) != 1 or not isinstance(st.targets[0], ast.Name):
+                continue
+            tgt = st.targets[0].id
+            if tgt == sname:
+                v = st.value     # S = tl.sqrt(tl.clip(S, <a_min>))
+                if not (_is_tl(v, "sqrt") and _is_tl(v.args[0], "clip") and isinstance(v.args[0].args[0], ast.Name) and v.args[0].args[0].id == sname):
+                    raise Untranslatable(ast.unparse(st))
+                cl = v.args[0]
+                amin = cl.args[1] if len(cl.args) > 1 else next((k.value for k in cl.keywords if k.arg == "a_min"), None)
+                if amin is None or len(cl.args) > 2 or any(k.arg == "a_max" for k in cl.keywords):
+                    raise Untranslatable(ast.unparse(st))
+                if _is_tl(amin, "eps"):
+                    clip_arg = "eps"
+                elif isinstance(amin, ast.Constant) and amin.value == 0:
+                    clip_arg = "(f0 Op)"
+                else:
+                    raise Untranslatable(ast.unparse(amin))
+            else:
+                env[tgt] = _gm(st.value, env)
+        if clip_arg is None or not {"U", "S", "V"} <= set(env):
+            raise Untranslatable("branch does not define U, S, V")
+        return gram, clip_arg, env
+    gA, cA, envA = branch(iff.body)
+    gB, cB, envB = branch(iff.orelse)
+    # U, S, V = (flips) ; return (slices)
+    after = fn.body[fn.body.index(iff) + 1:]
+    flips = [st for st in after if isinstance(st, ast.Assign) and isinstance(st.targets[0], ast.Tuple) and isinstance(st.value, ast.Tuple)
+             and [e.id for e in st.targets[0].elts if isinstance(e, ast.Name)] == ["U", "S", "V"]]
+    ret = [st for st in after if isinstance(st, ast.Return) and isinstance(st.value, ast.Tuple) and len(st.value.elts) == 3]
+    if len(flips) != 1 or len(ret) != 1:
+        raise Untranslatable("flip / return statements")
+
+    def tup(env):
+        return "(" + ", ".join(_gm(e, env) for e in flips[0].value.elts) + ")"
+    senv = {"dim_1": "d1", "dim_2": "d2", "n_eigenvecs": "ne"}
+    bounds = []
+    for e, want in zip(ret[0].value.elts, ["U[:, :_]", "S[:_]", "V[:_, :]"]):
+        if not isinstance(e, ast.Subscript):
+            raise Untranslatable(ast.unparse(e))
+        sl = e.slice
+        if want == "S[:_]":
+            ok = isinstance(sl, ast.Slice) and sl.lower is None and sl.step is None and sl.upper is not None
+            b = sl.upper if ok else None
+        else:
+            ok = isinstance(sl, ast.Tuple) and len(sl.elts) == 2 and all(isinstance(x, ast.Slice) for x in sl.elts)
+            full, part = (sl.elts[0], sl.elts[1]) if want.startswith("U") else (sl.elts[1], sl.elts[0])
+            ok = ok and full.lower is None and full.upper is None and part.lower is None and part.upper is not None and part.step is None
+            b = part.upper if ok else None
+        if not ok:
+            raise Untranslatable(ast.unparse(e))
+        bounds.append(_ga(b, senv))
+    robust = ("repeat match goal with |- context [?a <? ?b] => destruct (Nat.ltb_spec a b) | |- context [?a <=? ?b] => destruct (Nat.leb_spec a b) end; "
+              "try reflexivity; try lia")
+    verdict = [
+        ("symeig_gram_branch", f"forall (F : Type) (Op : fops F) (M : tensor F), gram_query Op M = if {cond} then {gA} else {gB}",
+         "intros; unfold gram_query; " + robust),
+        ("symeig_clip_level", f"forall (F : Type) (Op : fops F) (eps x : F), clip_min Op {cA} x = clip_min Op eps x /\\ clip_min Op {cB} x = clip_min Op eps x",
+         "intros; split; reflexivity"),
+        ("symeig_return_slices", "forall (F : Type) (Op : fops F) (d1 d2 ne : nat) (U : tensor F) (Sv : list F) (V : tensor F), "
+         f"symeig_truncate Op d1 d2 ne (U, Sv, V) = (cols_firstn Op {bounds[0]} U, firstn {bounds[1]} Sv, rows_firstn Op {bounds[2]} V)",
+         "intros; unfold symeig_truncate; "
+         "repeat match goal with |- context [cols_firstn _ ?a _] => match goal with |- context [cols_firstn _ ?b _] => assert_fails (constr_eq a b); replace b with a by lia end end; "
+         "repeat match goal with |- context [rows_firstn _ ?a _] => match goal with |- context [rows_firstn _ ?b _] => assert_fails (constr_eq a b); replace b with a by lia end end; "
+         "repeat match goal with |- context [firstn ?a _] => match goal with |- context [firstn ?b _] => assert_fails (constr_eq a b); replace b with a by lia end end; reflexivity"),
+    ]
+    syntactic = ("symeig_body", f"forall (F : Type) (Op : fops F) (M W : tensor F) (s : list F), symeig_raw Op M W s = if {cond} then {tup(envA)} else {tup(envB)}",
+                 "intros; unfold symeig_raw; " + robust)
+    return verdict, syntactic
 
 
 def _find_stmt(fn, pred, nth=0):
@@ -996,12 +1184,19 @@ def ast_tie(chk):
         return (f"forall (s s2 : nat) (rest2 : list nat) (i : nat) (validated rank : list nat),\n  strict_loop_code (s :: s2 :: rest2) i validated rank = "
                 f"strict_loop_code (s2 :: rest2) (S i) (validated ++ [{e}]) rank", "intros; rewrite strict_loop_code_cons; first [reflexivity | do 3 f_equal; lia]")
     add("validate_tt_rank_strict_step", strict_goal)
+    sym_syntactic = None
+    try:
+        sym_verdict, sym_syntactic = symeig_ast_goals()
+        for g in sym_verdict:
+            goals.append((g[0], (g[1], g[2])))
+    except (Untranslatable, OSError, SyntaxError, KeyError, IndexError, AttributeError, StopIteration) as e:
+        skipped.append(f"symeig_svd body: {e}")
 
     d = os.path.join(C.BUILD, "ast", f"C09_{os.getpid()}"); os.makedirs(d, exist_ok=True)
     fnm = os.path.join(d, "C09_ast.v")
     with open(fnm, "w") as f:
         f.write("From Coq Require Import List Arith QArith Lia Bool. Import ListNotations.\n"
-                "From TLV Require Import Base.Shape Base.PyList Base.Tensor Base.Ops Model.Base Model.SvdDecomp Proofs.SvdDecompRing Proofs.SvdDecompValidate.\nOpen Scope nat_scope.\n")
+                "From TLV Require Import Base.Shape Base.PyList Base.Tensor Base.Ops Model.Base Model.SvdDecomp Model.SvdDecompSymeig Proofs.SvdDecompRing Proofs.SvdDecompValidate.\nOpen Scope nat_scope.\n")
         for name, (stmt, tac) in goals:
             f.write(f"Lemma ast_{name} : {stmt}.\nProof. {tac}. Qed.\n")
     failed = []
@@ -1013,8 +1208,23 @@ def ast_tie(chk):
             failed.append((r.stdout + r.stderr)[-900:])
     except OSError as e:
         skipped.append(f"coqc not run: {e}")
+    syn_state = "not generated"
+    if sym_syntactic is not None:
+        # non-verdict: is the whole body of symeig_svd still literally Model.symeig_raw ?  (a semantics-preserving rewrite of the
+        # matrix expressions fails this syntactic goal; the differential symeig correspondence is what decides then)
+        fn2 = os.path.join(d, "C09_ast_sym.v")
+        with open(fn2, "w") as f:
+            f.write("From Coq Require Import List Arith QArith Lia Bool. Import ListNotations.\n"
+                    "From TLV Require Import Base.Shape Base.PyList Base.Tensor Base.Ops Model.Base Model.SvdDecomp Model.SvdDecompSymeig.\nOpen Scope nat_scope.\n"
+                    f"Lemma ast_{sym_syntactic[0]} : {sym_syntactic[1]}.\nProof. {sym_syntactic[2]}. Qed.\n")
+        try:
+            r2 = subprocess.run(["timeout", "300", "coqc", "-R", os.path.join(C.COQ, "theories"), "TLV", fn2], capture_output=True, text=True, cwd=d)
+            syn_state = "identical" if r2.returncode == 0 else ("timeout" if r2.returncode == 124 else "differs (not a verdict)")
+        except OSError:
+            syn_state = "coqc not run"
     import shutil
     shutil.rmtree(d, ignore_errors=True)
+    chk.cov["ast_symeig_body_vs_model"] = syn_state
     chk.cov["ast_tie"] = {"goals_generated_from_source": [g[0] for g in goals], "not_translatable_counted": skipped,
                           "proved": (not failed) and bool(goals) and not any("timed out" in x for x in skipped)}
     chk.checker_cmds.append("coqc on build/ast/C09_*/C09_ast.v (goals regenerated from the Python ast of _tt.py, _tr_svd.py, tt_tensor.py)")
@@ -1041,7 +1251,34 @@ def tape_lit(calls):
     return "[" + ";\n   ".join(ents) + "]"
 
 
+def sym_tape_lit(eigh_calls):
+    """tape of a svd="symeig_svd" run: (Gram query, (W, s, lambda as 1 x K)); s = sqrt(clip(lambda, eps)) is the square-root oracle's
+    answer to the model's own query (the model clips by itself and checks s > 0, s^2 = clip(lambda, eps))"""
+    if not eigh_calls:
+        return "(@nil tape_entry)"
+    eps = float(np.finfo(np.float64).eps)
+    ents = []
+    for (G, lam, W) in eigh_calls:
+        lam = np.asarray(lam, dtype=float)
+        sq = np.sqrt(np.clip(lam, eps, None))
+        ents.append(f"({qt(np.asarray(G, dtype=float))}, ({qt(W)}, {C.q_list([x.item() for x in sq])}, {qt(lam.reshape(1, -1))}))")
+    return "[" + ";\n   ".join(ents) + "]"
+
+
+def sym_ill_conditioned(sym_calls):
+    """a symeig_svd call of the run kept a triplet of the numerical null space (S <= 1e-6 S_max, in particular the clipped
+    sqrt(eps) ones): its derived column is rounding noise divided by a tiny number, so the factor comparison would compare
+    noise (recorded finding symeig_svd_rank_deficient of C05) -- such runs are judged by the predicates only"""
+    for (M, n, U, S, V) in sym_calls:
+        S = np.asarray(S, dtype=float)
+        if S.size and (S[0] <= 0 or S[-1] <= 1e-6 * S[0]):
+            return True
+    return False
+
+
 def kind_lit(kind, extra):
+    if extra.get("svd") == "symeig_svd":
+        return "(KSym " + kind_lit(kind, {k: v_ for k, v_ in extra.items() if k != "svd"}) + ")"
     if kind == "tt":
         return "KTT"
     if kind == "ttm":
@@ -1109,10 +1346,20 @@ def run(chk):
     cases, meta = [], []
     resid = []
     orth = []
-    for (kind, X, rank, extra, info) in load_corpus() + list(gen_corr_cases(tier, rng, nrng)):
+    eigh_resid = []
+    for (kind, X, rank, extra, info) in load_corpus() + list(gen_corr_cases(tier, rng, nrng)) + list(gen_sym_corr_cases(tier, rng, nrng)):
         if X.size > 40:
             continue
         st, v, calls = run_impl(kind, X, rank, extra)
+        sym = extra.get("svd") == "symeig_svd"
+        if sym:
+            # the oracle of these runs is eigh; the (M, U, S, V) of every symeig_svd call stand in for the svd tape in the
+            # sign-ambiguity test (U is already truncated to the kept columns)
+            # tucker: only the initialisation passes svd= on; the HOOI sweeps call svd_interface with the default truncated_svd,
+            # so such a run has X.ndim symeig calls followed by ordinary svd calls (modelled as it is, see Corr/C09.v KSym)
+            eigh_calls, sym_calls, svd_calls = list(LAST_EIGH), list(LAST_SYM), list(calls)
+            calls = [(M_, U_, S_, V_) for (M_, n_, U_, S_, V_) in sym_calls] + svd_calls
+            LAST_KEPT[:] = [None] * len(sym_calls) + (list(LAST_KEPT) if len(LAST_KEPT) == len(svd_calls) else [None] * len(svd_calls))
         if timed_out(st, v):
             chk.hist("skipped_timeout", kind)
             continue
@@ -1129,10 +1376,21 @@ def run(chk):
             # the sign of a kept singular vector is not fixed by the documented convention: predicates only
             chk.hist("corr_sign_ambiguous_predicates_only", kind)
             continue
+        if sym and (len(eigh_calls) != len(sym_calls) or sym_ill_conditioned(sym_calls) or (svd_calls and not (kind == "tucker" and len(sym_calls) == X.ndim))):
+            chk.hist("corr_symeig_null_space_kept_predicates_only", kind)
+            continue
         cid = len(cases)
-        cases.append(f"({cid}%nat, {kind_lit(kind, extra)}, {qt(X)}, {rank_lit(rank)},\n  {tape_lit(calls)},\n  {outcome_lit(kind, st, v)})")
+        the_tape = (f"({sym_tape_lit(eigh_calls)} ++\n   {tape_lit(svd_calls)})" if sym else tape_lit(calls))
+        cases.append(f"({cid}%nat, {kind_lit(kind, extra)}, {qt(X)}, {rank_lit(rank)},\n  {the_tape},\n  {outcome_lit(kind, st, v)})")
+        if sym:
+            chk.hist("corr_symeig", kind)
         meta.append((kind, X, rank, extra, info, st))
-        for (M, U, S, V) in calls:   # measured oracle contract: LAPACK's answer reproduces its query, U / Vh are orthonormal
+        if sym:   # measured eigh contract: W orthogonal, G W = W diag(lambda)
+            for (G_, lam_, W_) in eigh_calls:
+                G_ = np.asarray(G_, dtype=float)
+                eigh_resid.append(max(float(np.max(np.abs(W_ @ W_.T - np.eye(W_.shape[0])))),
+                                      float(np.max(np.abs(G_ @ W_ - W_ * lam_))) / max(1.0, float(np.max(np.abs(G_))))))
+        for (M, U, S, V) in (svd_calls if sym else calls):   # measured oracle contract: LAPACK's answer reproduces its query, U / Vh are orthonormal
             k = len(S)
             resid.append(float(np.max(np.abs((U[:, :k] * S) @ V[:k, :] - M))) / max(1.0, float(np.max(np.abs(M)))) if M.size else 0.0)
             if M.size:
@@ -1222,11 +1480,15 @@ def run(chk):
     if resid:
         chk.cov["oracle_residuals"] = {"svd_calls_taped": len(resid), "max_relative_residual_U_S_V_minus_M": max(resid),
                                        "max_orthonormality_residual_UtU_VVt_minus_I": max(orth) if orth else 0.0}
+    if eigh_resid:
+        chk.cov["eigh_oracle_residuals"] = {"eigh_calls_taped": len(eigh_resid), "max_residual_WWt_minus_I_or_GW_minus_Wlambda": max(eigh_resid)}
     chk.cov["exhaustive"] = False
     chk.cov["rule"] = ("correspondence: random tensors of order 2-4 over mode sizes {1,2,3} (<= 24 entries quick / 36 thorough), eleven value classes "
                        "(generic dyadic, exactly low TT rank, exactly low multilinear rank, rank-deficient, integer, integer low rank, negative superdiagonal (float / int dtype), negated partial permutation (float / int dtype), sparse integer), "
                        "tensor_train / tensor_train_matrix / tensor_ring (every start mode) / tucker (0-2 HOOI sweeps, tol=0), int and list ranks from 1 to beyond "
                        "the mode sizes plus invalid requests; model over Q fed with the taped LAPACK answers; U-derived factors exact, products |d| <= 1e-9 + 1e-9(|a|+|b|). "
+                       "symeig correspondence: the same functions with svd='symeig_svd' on tensors of <= 24 entries, model = transcription of symeig_svd over Q fed with eigh's taped answers, "
+                       "all factors |d| <= 1e-7 + 1e-7(|a|+|b|); "
                        "predicates (tests): order 2-5, mode sizes 1-7, same classes, default options; "
                        "svd-method stream (tests): svd in {truncated_svd, symeig_svd, randomized_svd} x the four decompositions x low-rank / rank-deficient / generic inputs "
                        "x over-requested / exactly sufficient / truncating ranks (order 2-4, mode sizes 1-7; no exception, finite, ranks respected, exact at sufficient rank, bounds; "
@@ -1238,7 +1500,9 @@ def run(chk):
                        "predicate thresholds: exact = 1e-9 relative; bounds with factor (1 +- 1e-8) and floor 1e-9 ||X||"]
     chk.trusted += ["numpy.linalg.svd (LAPACK gesdd) as SVD oracle for the implementation and, independently, for the predicates' singular values",
                     "NumPy reshape/transpose/moveaxis as modelled in Base/Tensor.v; n-mode product modelled at index level (Model/SvdDecomp.v mode_dot)",
-                    "tape recorder: NumpyBackend.register_method('svd', wrapper) in harness/props/C09.py"]
+                    "tape recorder: NumpyBackend.register_method('svd' / 'eigh', wrapper) in harness/props/C09.py",
+                    "svd='symeig_svd' correspondence: numpy.linalg.eigh (LAPACK syevd) and numpy.sqrt are the oracles (eigh's query and the "
+                    "square-root contract are checked by the model); runs that keep a triplet of the numerical null space are judged by the predicates only"]
     _install_known_loader()
     return chk.finish({})
 
